@@ -650,7 +650,8 @@ def prepare(fam, op, n, fseed):
     """deterministic construction of one formula (all builds), its variable list, point and
     differentiation variables from (family, op, n, seed) — used by run() and by replay"""
     rng = core.Rng(fseed)
-    U = gen.Universe(rng)
+    vecfam = fam.startswith("vec:")
+    U = gen.Universe(rng, nvec=4 if (vecfam and rng.random() < 0.5) else 3)
     fams, _ = families(U, rng)
     terms, names = [], set()
     for i in range(n):
@@ -667,6 +668,16 @@ def prepare(fam, op, n, fseed):
     extra = [v for v in U.all_vars() if v.name not in names][:2]
     V = V + extra  # a strict superset
     rng.shuffle(V)
+    if vecfam:
+        # orders on which a contiguous-slice shortcut for x[idx] would read the wrong entries: endpoints of
+        # the operand len-1 apart with the interior permuted / a foreign variable inside the span
+        own = [v for v in V if v.name in names]
+        ops = [L for L in K.vector_operands(terms[0]) if len(L) >= 3]
+        if ops:
+            picks = K.span_orders(rng, rng.choice(ops), own, extra, how_many=1)
+            if picks:
+                V = rng.choice(picks)[1]
+                V = V + [v for v in extra if v.name not in {w.name for w in V}]
     pt = gen.rand_point(rng, V, lo=-1.0, hi=1.0)
     wrts = ([v for v in V if v.name in names][:1] or []) + extra[:1]
     return U, builds, names, V, extra, pt, wrts
